@@ -3,6 +3,18 @@ package main
 func buildProperties() []Property {
 	return []Property{
 		{
+			ID: "C02", Title: "Unification yields a most general unifier, whatever the term representation",
+			Decides:    "a failed unification leaves no binding (environments are persistent: every Env store targets a node private to the writer); unify_with_occurs_check applies the check at every depth and before every bind; atomic terms are compared with a total non-panicking equality; every slice/string encoding of a list reports './2 through the Compound interface.",
+			NotDecided: "most-generality, symmetry, idempotence, and that Arg(n) of the four list encodings denotes the same abstract argument (algebraic laws over all term pairs).",
+			Rules: []RuleDef{
+				{"R-ENV-IMMUT", 9, ruleEnvImmut},
+				{"R-PARAM-THREAD", 5, ruleParamThread(threadRowsFor("unify", "contains"))},
+				{"R-OCCURS-SITE", 2, ruleOccursSite},
+				{"R-IFACE-EQ", 10, ruleIfaceEq},
+				{"R-COMPOUND-UNIFORM", 7, ruleCompoundUniform},
+			},
+		},
+		{
 			ID: "C07", Title: "Arithmetic is exact or raises an evaluation error; comparisons are numeric",
 			Decides:    "integer evaluables never route through float64; full-range + - * neg are paired with an int_overflow branch; / % divisors and shift counts are guarded; float->integer conversions are range-guarded with the actual constants; the 2x2 type dispatch of the six comparison predicates and of the mixed-mode arithmetic computes the operator the ISO name prescribes.",
 			NotDecided: "value correctness of guards that are present but wrong (the sign error in mulF/divF, O2), IEEE results of the float functions, deeper expression trees.",
@@ -27,4 +39,16 @@ func buildProperties() []Property {
 			},
 		},
 	}
+}
+
+func threadRowsFor(fns ...string) []threadRow {
+	var out []threadRow
+	for _, r := range threadRows {
+		for _, f := range fns {
+			if r.fn == f {
+				out = append(out, r)
+			}
+		}
+	}
+	return out
 }
